@@ -43,8 +43,17 @@ theorem sim_extractAtomic (bl : Nat) (bt : BaseType) (enc : Option Enc) (hl : Bo
   unfold extractAtomic
   repeat (first | exact sim_extractCore _ _ _ _ | split | sim_step)
 
+theorem sim_applyMask (m : Nat) (c : Bool) (v : IVal) : Sim (applyMask m c v) := by
+  unfold applyMask
+  cases v <;> simp only [] <;> sim'
+
+theorem sim_unapplyMask {σ : Type} (m : Nat) (c : Bool) (v : IVal) : Sim (unapplyMask m c v : OdxM σ IVal) := by
+  unfold unapplyMask
+  cases v <;> simp only [] <;> sim'
+
 macro "sim''" : tactic => `(tactic| repeat (first
     | exact sim_emplaceAtomic _ _ _ _ _ _ | exact sim_extractAtomic _ _ _ _
+    | exact sim_applyMask _ _ _ | exact sim_unapplyMask _ _ _
     | exact sim_emplaceBytes _ _ | exact sim_rawOfInt32 _ _ _ | exact sim_rawOfUInt32 _ _ _ | exact sim_fitBytes _ _
     | sim_step | split))
 
